@@ -7,6 +7,10 @@ CHECKS = {
    technique="property-based testing: seeded proptest generators over byte-stream recipes and call partitions, differential against an independent reference gear chunker, metamorphic locality relation; libFuzzer target in thorough tier",
    text="Generated-input search (tens of thousands of streams x call partitions per run, all power-of-two targets 2^7..2^16) compared boundary-for-boundary with an independently written reference chunker and chunk hash; exploration is the right level because the property quantifies over unbounded byte streams and call partitions, which can only be sampled - the reference rule makes each sample a full functional check rather than a self-consistency check.",
    note="Trusts: the reference chunker in harness/src/refs/chunker.rs (written from the documented rule), the gear table data of the gearhash crate, the blake3 crate. Divisor/multiplier fixed at the shipped 8 and 2."),
+ "C06": dict(level="exploration", design="3/C06",
+   technique="property-based testing: seeded proptest generators over chunk lists / byte strings / hash text, differential against an independent Merkle reference and across all in-repo code paths, metamorphic change/swap/insert/drop relations, committed golden vectors",
+   text="Every generated chunk list is hashed through every code path (uploader, both validators' path, file/xorb/range/salt/HMAC helpers, streaming hasher) and compared with an independently written implementation of the published construction plus golden vectors; exploration because the quantifier is over all lists/strings, sampled with engineered branching words, repeats and extreme lengths.",
+   note="Trusts the reference in harness/src/refs/merkle.rs and the blake3 crate. Precondition: equal chunk hash implies equal length; all-zero leaf hashes excluded (BLAKE3 preimage)."),
 }
 
 ALL = ["C%02d" % i for i in range(1, 21)]
